@@ -35,7 +35,11 @@ func c06Command(r *rand.Rand, uid *gen.UID) *pipeline.CommandStep {
 	if r.IntN(2) == 0 {
 		st.Env = map[string]string{}
 		for i, n := 0, r.IntN(4); i < n; i++ {
-			st.Env[[]string{"A", "B", "C", "D", "SHARED"}[r.IntN(5)]] = "step-" + uid.Next()
+			v := "step-" + uid.Next()
+			if r.IntN(4) == 0 {
+				v = "" // an empty value still shadows the pipeline variable
+			}
+			st.Env[[]string{"A", "B", "C", "D", "SHARED"}[r.IntN(5)]] = v
 		}
 	}
 	if r.IntN(3) == 0 {
